@@ -373,10 +373,21 @@ class DirectCollocation(SamplingMethod):
         f = SamplingMethod.to_function(self, stage, name, inner_args, results, *inner_margs)
         f_args = f.mx_in()[:len(args)]
         call_args = list(f_args)
+        hidden = []
         if add_xc:
-            call_args+=[self.Xc_vars0]
+            hidden+=[self.Xc_vars0]
         if add_zc:
-            call_args+=[self.Zc0]
+            hidden+=[self.Zc0]
+        # Arguments that went in rescaled (scale*variable) come back as fresh inputs: express the hidden ones in those
+        frm, to = [], []
+        for a, fa in zip(args, f_args):
+            r = self.rescaled_argument(stage.value(a))
+            if r is not None:
+                frm.append(r[0])
+                to.append(ca.solve(r[1], ca.vec(fa)))
+        if frm and hidden:
+            hidden = ca.substitute(hidden, [vcat(frm)], [vcat(to)])
+        call_args += hidden
 
         return Function(name, f_args, f.call(call_args,True,False), *margs)
 
